@@ -28,7 +28,10 @@ Inductive body := BText (dispatch_out : option (json * list Z))      (* decodabl
                 | BUndecodable.                                       (* not valid UTF-8 *)
 Inductive status_fn := SDefault | SFirstError (table : list (Z * Z)) (other : Z) (allok : Z)
                      | SMixed (allfail partial allok : Z)      (* looks at the successes too: 207-style gateways *)
-                     | SCount (base : Z).                       (* depends on how many calls were answered *)
+                     | SCount (base : Z)                        (* depends on how many calls were answered *)
+                     | SExact (table : list (list Z * Z)) (other : Z).   (* a lookup keyed by the whole tuple *)
+Fixpoint ltable (c : list Z) (t : list (list Z * Z)) : option Z :=
+  match t with [] => None | (k, v) :: r => if list_eqb Z.eqb k c then Some v else ltable c r end.
 (* the harness's status functions: [allok] when every code is 0, else the table entry of the first non-zero code, else [other] *)
 Fixpoint first_error (codes : list Z) : option Z :=
   match codes with [] => None | c :: r => if Z.eqb c 0 then first_error r else Some c end.
@@ -40,6 +43,7 @@ Definition status_of (f : status_fn) (codes : list Z) : Z :=
   | SMixed allfail partial allok =>
       if forallb (Z.eqb 0) codes then allok else if existsb (Z.eqb 0) codes then partial else allfail
   | SCount base => base + Z.of_nat (List.length codes)
+  | SExact t other => match ltable codes t with Some s => s | None => other end
   end%Z.
 
 Record reply := { r_status : Z; r_ctype : option string; r_body : option json; r_dispatched : bool }.
